@@ -5,6 +5,7 @@ package main
 
 import (
 	"fmt"
+	"go/ast"
 	"go/constant"
 	"go/token"
 	"go/types"
@@ -447,6 +448,17 @@ func (env *SpecEnv) evalCall(e *SExpr) Val {
 			env.fail(e, "no map range loop %d seen yet", ord)
 		}
 		return Val{T: app("select", fc.heapGet(env.st(), key, srt), arg(1).T), Ty: tBool}
+	case "apply", "safe": // apply(f, args...): value of the pure closure f; safe(f, args...): f's body cannot panic on args
+		f := arg(0)
+		cl, ok := fc.eng.closures[f.T]
+		if !ok || cl.fc != fc {
+			env.fail(e, "apply/safe: argument is not a closure literal of the function under verification")
+		}
+		var as []Val
+		for i := 1; i < len(e.Args); i++ {
+			as = append(as, arg(i))
+		}
+		return env.applyClosure(e, cl, as, name == "safe")
 	case "cs": // cs(e): value of e when the last critical section began (right after Lock)
 		snap := env.cur.csSnap
 		if snap == nil {
@@ -665,4 +677,48 @@ func (fc *FnCtx) resolveType0(text string, pkg *types.Package) types.Type {
 		return o.Type()
 	}
 	return nil
+}
+
+// applyClosure evaluates a closure literal whose body is a single `return expr` as a pure function.
+func (env *SpecEnv) applyClosure(e *SExpr, cl *closure, args []Val, safeMode bool) Val {
+	fc := env.fc
+	lit := cl.lit
+	if len(lit.Body.List) != 1 {
+		env.fail(e, "closure is not a single return statement (cannot be used as a pure function)")
+	}
+	ret, ok := lit.Body.List[0].(*ast.ReturnStmt)
+	if !ok || len(ret.Results) != 1 {
+		env.fail(e, "closure is not a single return statement (cannot be used as a pure function)")
+	}
+	tmp := env.st().clone()
+	i := 0
+	for _, f := range lit.Type.Params.List {
+		for _, n := range f.Names {
+			if o := fc.info().Defs[n]; o != nil && i < len(args) {
+				tmp.vars[o] = fc.assignConvSpec(args[i], o.Type())
+			}
+			i++
+		}
+	}
+	fc.noDefine++
+	defer func() { fc.noDefine-- }()
+	if !safeMode {
+		return fc.eval1(tmp, ret.Results[0])
+	}
+	savedObls, savedCmds, savedSpec, savedCounters := len(fc.obls), len(fc.cmds), fc.inSpec, map[string]int{}
+	for k, v := range fc.counters {
+		savedCounters[k] = v
+	}
+	fc.inSpec = 0
+	fc.eval1(tmp, ret.Results[0])
+	fc.inSpec = savedSpec
+	var goals []string
+	for _, ob := range fc.obls[savedObls:] {
+		goals = append(goals, implies(ob.PC, ob.Goal))
+	}
+	fc.obls = fc.obls[:savedObls]
+	fc.cmds = fc.cmds[:savedCmds]
+	fc.counters = savedCounters
+	// the outer path condition is a hypothesis of every goal; drop it (we are inside a spec formula evaluated under it)
+	return Val{T: and(goals...), Ty: tBool}
 }
